@@ -118,8 +118,9 @@ impl<'a, R: Read> Lexer<Scanner<'a, R>> {
                     return match self.scanner.read() {
                         Ok(char) => {
                             // If using CRLF, normalize to LF
+                            // (a CRLF may be the last thing in the input)
                             if last_char == b'\r' && char == b'\n' {
-                                self.scanner.read()?;
+                                self.scanner.advance()?;
                             }
 
                             Ok(&self.cur)
